@@ -1,0 +1,188 @@
+//go:build verif
+
+package dict
+
+import (
+	"encoding/json"
+	"fmt"
+	"math/rand"
+	"os"
+	"runtime"
+	"sort"
+	"strconv"
+	"strings"
+
+	"github.com/karino2/folang/pkg/frt"
+)
+
+/*
+Verification hooks, only compiled with the verif build tag.
+
+Keys/Values/KVs expose Go's random map order. To explore enumeration orders systematically,
+each enumeration call is numbered (1, 2, ...) and, when FOLANG_VERIF_DICTSCHED names a schedule file,
+the result is put in canonical order (sorted by the printed key) and then permuted as the schedule says.
+
+Schedule file (JSON): {"default": PERM, "calls": {"<call number>": PERM, ...}}
+PERM: "canon" | "rev" | "rot:<k>" | "swap:<i>" | "rand:<seed>" | "go" (leave Go's order)
+
+When FOLANG_VERIF_DICTLOG names a file, one NDJSON line per enumeration call is appended:
+{"call":n, "kind":"Keys|Values|KVs", "n":len, "site":"caller function", "perm": PERM}
+
+Without FOLANG_VERIF_DICTSCHED nothing is reordered.
+*/
+
+type verifSched struct {
+	Default string            `json:"default"`
+	Calls   map[string]string `json:"calls"`
+}
+
+var verifCallNo = 0
+var verifSchedLoaded = false
+var verifSchedOn = false
+var verifTheSched verifSched
+
+func verifLoad() {
+	if verifSchedLoaded {
+		return
+	}
+	verifSchedLoaded = true
+	path := os.Getenv("FOLANG_VERIF_DICTSCHED")
+	if path == "" {
+		return
+	}
+	data, err := os.ReadFile(path)
+	if err != nil {
+		panic("verif: can't read schedule " + path)
+	}
+	if err := json.Unmarshal(data, &verifTheSched); err != nil {
+		panic("verif: bad schedule " + path + ": " + err.Error())
+	}
+	if verifTheSched.Default == "" {
+		verifTheSched.Default = "canon"
+	}
+	verifSchedOn = true
+}
+
+func verifSite() string {
+	// skip: Callers, verifSite, verifNext, verifOrderX, Keys/Values/KVs -> first frame is the caller of Keys/Values/KVs
+	pcs := make([]uintptr, 8)
+	n := runtime.Callers(5, pcs)
+	if n == 0 {
+		return "?"
+	}
+	frames := runtime.CallersFrames(pcs[:n])
+	fr, _ := frames.Next()
+	name := fr.Function
+	if i := strings.LastIndex(name, "/"); i >= 0 {
+		name = name[i+1:]
+	}
+	return name
+}
+
+// returns the permutation to apply to this call ("" = leave as is).
+func verifNext(kind string, n int) string {
+	verifLoad()
+	verifCallNo++
+	perm := ""
+	if verifSchedOn {
+		perm = verifTheSched.Default
+		if p, ok := verifTheSched.Calls[strconv.Itoa(verifCallNo)]; ok {
+			perm = p
+		}
+		if perm == "go" {
+			perm = ""
+		}
+	}
+	if logf := os.Getenv("FOLANG_VERIF_DICTLOG"); logf != "" {
+		f, err := os.OpenFile(logf, os.O_APPEND|os.O_CREATE|os.O_WRONLY, 0644)
+		if err == nil {
+			fmt.Fprintf(f, "{\"call\":%d,\"kind\":%q,\"n\":%d,\"site\":%q,\"perm\":%q}\n", verifCallNo, kind, n, verifSite(), perm)
+			f.Close()
+		}
+	}
+	return perm
+}
+
+// index permutation of 0..n-1 for perm, applied to the canonical order.
+func verifPermIdx(perm string, n int) []int {
+	idx := make([]int, n)
+	for i := range idx {
+		idx[i] = i
+	}
+	if n < 2 {
+		return idx
+	}
+	switch {
+	case perm == "canon":
+	case perm == "rev":
+		for i := range idx {
+			idx[i] = n - 1 - i
+		}
+	case strings.HasPrefix(perm, "rot:"):
+		k, _ := strconv.Atoi(perm[4:])
+		for i := range idx {
+			idx[i] = (i + k) % n
+		}
+	case strings.HasPrefix(perm, "swap:"):
+		k, _ := strconv.Atoi(perm[5:])
+		k = k % (n - 1)
+		idx[k], idx[k+1] = idx[k+1], idx[k]
+	case strings.HasPrefix(perm, "rand:"):
+		seed, _ := strconv.ParseInt(perm[5:], 10, 64)
+		r := rand.New(rand.NewSource(seed + int64(verifCallNo)*7919))
+		r.Shuffle(n, func(i, j int) { idx[i], idx[j] = idx[j], idx[i] })
+	default:
+		panic("verif: unknown perm " + perm)
+	}
+	return idx
+}
+
+func verifCanonKeys[K comparable](keys []K) []K {
+	res := append([]K{}, keys...)
+	sort.SliceStable(res, func(i, j int) bool { return fmt.Sprint(res[i]) < fmt.Sprint(res[j]) })
+	return res
+}
+
+func verifOrderKeys[K comparable](res []K) []K {
+	perm := verifNext("Keys", len(res))
+	if perm == "" {
+		return res
+	}
+	canon := verifCanonKeys(res)
+	var out []K
+	for _, i := range verifPermIdx(perm, len(canon)) {
+		out = append(out, canon[i])
+	}
+	return out
+}
+
+func verifOrderValues[K comparable, V any](m map[K]V, res []V) []V {
+	perm := verifNext("Values", len(res))
+	if perm == "" {
+		return res
+	}
+	var keys []K
+	for k := range m {
+		keys = append(keys, k)
+	}
+	canon := verifCanonKeys(keys)
+	var out []V
+	for _, i := range verifPermIdx(perm, len(canon)) {
+		out = append(out, m[canon[i]])
+	}
+	return out
+}
+
+func verifOrderKVs[K comparable, V any](res []frt.Tuple2[K, V]) []frt.Tuple2[K, V] {
+	perm := verifNext("KVs", len(res))
+	if perm == "" {
+		return res
+	}
+	canon := append([]frt.Tuple2[K, V]{}, res...)
+	sort.SliceStable(canon, func(i, j int) bool { return fmt.Sprint(canon[i].E0) < fmt.Sprint(canon[j].E0) })
+	var out []frt.Tuple2[K, V]
+	for _, i := range verifPermIdx(perm, len(canon)) {
+		out = append(out, canon[i])
+	}
+	return out
+}
